@@ -266,3 +266,38 @@ func VH_C04_dep(kind, serial int) {
 	}
 	vreach("end")
 }
+
+// VH_C04_mixed: one event dispatches a rule that asks for serial actions and a rule
+// without any policies whose first action fails. Policies are per rule: the failing
+// action of the plain rule neither stops its sibling action nor the other rule, whichever
+// rule is walked first (order: which rule is stored first).
+func VH_C04_mixed(kind, order int) {
+	env, in := vhDispatchEnv(kind)
+	in.fail = map[string]bool{"p1": true}
+	serialRule := vhC04Rule(false, false, true, "s1", "s2")
+	plainRule := vhC04Rule(false, false, false, "p1", "p2")
+	if order == 0 {
+		_, err := env.loc.AddRule(env.ctx, "rs", serialRule)
+		vassume(err == nil)
+		_, err = env.loc.AddRule(env.ctx, "rp", plainRule)
+		vassume(err == nil)
+	} else {
+		_, err := env.loc.AddRule(env.ctx, "rp", plainRule)
+		vassume(err == nil)
+		_, err = env.loc.AddRule(env.ctx, "rs", serialRule)
+		vassume(err == nil)
+	}
+	s := vsymStrN("e0", 3)
+	vassume(!IsVariable(s))
+	env.loc.ProcessEvent(env.ctx, Map{"a": s})
+	for _, code := range []string{"s1", "s2", "p1", "p2"} {
+		n := 0
+		for _, e := range in.execs {
+			if e.code == code {
+				n++
+			}
+		}
+		vassert(n == 1, "each-action-exactly-once")
+	}
+	vreach("end")
+}
